@@ -313,6 +313,20 @@ func Run(cfg *common.Config) (*common.Report, error) {
 			}
 		}
 	}
+	// auth claim key coordinates perturbed CONSISTENTLY: the claim in the tree (and so the state
+	// and the DID) holds (X', Y') while the credential is signed with the real key (X, Y): the
+	// signature is not valid under the key held in the claim, the bundle must be rejected
+	for i, kind := range issuer.KeyPerturbations {
+		p := issuer.Params{NClaims: i % 3, Published: issuer.BP(true), RootPos: "index", KeyPerturb: kind,
+			Genesis: i%2 == 1, OmitZero: i%2 == 0, AuthNonce: uint64(cfg.Rng.Int63n(1 << 53))}
+		sc, err := issuer.Build(cfg.Rng, p)
+		if err != nil {
+			return nil, fmt.Errorf("perturbed key %s: %w", kind, err)
+		}
+		if _, _, err := d.Do(sc.CaseOf("bjj", "auth-claim-key-perturbed-consistently:"+kind, "reject", sc.BJJ.Clone(), sc.Env.Clone())); err != nil {
+			return nil, err
+		}
+	}
 	if cfg.Thorough() {
 		if err := weakProbes(cfg, d); err != nil {
 			return nil, err
